@@ -101,9 +101,19 @@ pub fn payloads() -> Vec<(String, Vec<u8>, bool)> {
     v.push(("well-formed, 300 headers".into(), encode_request("/echo", &many_ref, b"x"), true));
     v.push(("well-formed, duplicate header keys".into(), frames(&bincode_header(b"/echo", &[(b"id", b"adv-p"), (b"a", b"1"), (b"a", b"2")]), 1, b"x"), true));
     v.push(("well-formed, 1 MiB body".into(), encode_request("/echo", &[("id", "adv-p")], &vec![7u8; 1 << 20]), true));
+    // near misses of the routes of a victim that serves through a route table (ROUTED): a
+    // directory of registered routes plus a slash, a registered route plus / minus a slash
+    for r in ROUTED_NEAR_MISSES {
+        v.push((format!("routed: well-framed request for the unregistered route {r:?}"), encode_request(r, &[("id", "adv-p")], b"x"), true));
+    }
     v.push(("well-formed, content-type and status-message headers".into(), encode_request("/echo", &[("id", "adv-p"), ("content-type", "\0"), ("status-message", "x")], b"x"), true));
     v
 }
+
+/// route table of the victim in the `routed` units (static prefixes that split right in front
+/// of a '/')
+const ROUTED: [&str; 7] = ["/echo", "/good", "/honest", "/a/b", "/ab", "/ledger/get", "/ledgers"];
+const ROUTED_NEAR_MISSES: [&str; 10] = ["/a/", "/ab/", "/a", "/ledger/", "/ledger", "/ledgers/", "/ledger/get/", "/echo/", "//", "/a//"];
 
 const ENDINGS: [&str; 5] = ["finish", "reset", "stop_recv", "abandon", "close_conn"];
 
@@ -138,7 +148,7 @@ async fn scenario(sim: Arc<Sim>, unit: Value) -> Obs {
     macro_rules! viol {
         ($k:expr, $($arg:tt)*) => { o.violations.push(($k.to_string(), format!($($arg)*))) };
     }
-    let v = sim.start(&NodeSpec::new(V).config(cfg())).unwrap();
+    let v = if unit["routed"].as_bool().unwrap_or(false) { sim.start_routed(&NodeSpec::new(V).config(cfg()), &ROUTED).unwrap() } else { sim.start(&NodeSpec::new(V).config(cfg())).unwrap() };
     let h = sim.start(&NodeSpec::new(H).config(cfg())).unwrap();
     let nv = sim.node_of(&v);
     if let Err(e) = h.connect(v.local_addr()).await {
@@ -201,7 +211,9 @@ async fn scenario(sim: Arc<Sim>, unit: Value) -> Obs {
         "payload" => {
             let pi = unit["payload"].as_u64().unwrap() as usize;
             let ending = unit["ending"].as_str().unwrap();
-            let (_, bytes, well_formed) = payloads().swap_remove(pi);
+            let (pname, bytes, well_formed) = payloads().swap_remove(pi);
+            // (a request for a route the table does not hold is answered NotFound, not served)
+            let must_be_served = well_formed && !pname.starts_with("routed:");
             match conn.open_bi().await {
                 Err(e) => viol!("setup", "{ctx} open_bi: {e}"),
                 Ok((mut tx, mut rx)) => {
@@ -224,8 +236,11 @@ async fn scenario(sim: Arc<Sim>, unit: Value) -> Obs {
                             let resp = tokio::time::timeout(ms(3_000), rx.read_to_end(1 << 22)).await;
                             let served = matches!(&resp, Ok(Ok(b)) if decode_response(b).map(|r| r.0 == 200).unwrap_or(false));
                             o.log.push(format!("response: served={served} {:?}", resp.as_ref().map(|r| r.as_ref().map(|b| b.len()).map_err(|e| e.to_string()))));
-                            if well_formed && !served {
+                            if must_be_served && !served {
                                 viol!("well-formed-request-not-served", "{ctx} a well-formed request was not answered with Success: {:?}", resp.map(|r| r.map(|b| decode_response(&b).map(|x| x.0)).map_err(|e| e.to_string())));
+                            }
+                            if pname.starts_with("routed:") && (served || sim.svc.started("adv-p") > 0) {
+                                viol!("malformed-request-served", "{ctx} a request for a route the victim's table does not hold reached a handler (served={served})");
                             }
                             if !well_formed && served && sim.svc.started("adv-p") > 0 {
                                 viol!("malformed-request-served", "{ctx} the malformed request reached the handler and was answered with Success");
@@ -456,7 +471,7 @@ impl Check for C06 {
         CheckMeta {
             property: "C06",
             level: "fault_enumeration",
-            rule: "an admitted adversary (raw QUIC endpoint, valid identity) x byte string on a request stream (valid, cut at 15 offsets, garbage, wrong tag/version/reserved, 10 hostile length prefixes, bincode with absurd string/map sizes, invalid UTF-8, trailing bytes, response-shaped, 20 well-formed-but-unusual requests: timeout header values, empty/64 KiB route, multi-byte characters straddling bytes 64 / 256, 300 headers, duplicate keys, 1 MiB body) x ending {finish, reset, stop, abandon, connection close} x optional mid-frame split x placement {before, during, after} an honest peer's in-flight RPC; stream-level attacks (hold limit+3 streams, uni streams finished / reset / 150 at once / held open after 0, 1, 1024, 20000 bytes, datagrams 0/1/1200 B, abrupt closes, endpoint drop, the same while three of its well-formed requests are being served, stop+reset storms); each followed by a well-formed RPC on a sibling stream, honest RPCs, a new honest connection; plus the decoders on the same byte strings under an address-space cap; distinct = distinct (attack kind, connection state)".into(),
+            rule: "an admitted adversary (raw QUIC endpoint, valid identity) x byte string on a request stream (valid, cut at 15 offsets, garbage, wrong tag/version/reserved, 10 hostile length prefixes, bincode with absurd string/map sizes, invalid UTF-8, trailing bytes, response-shaped, well-framed requests for 10 near misses of the routes of a victim that serves through a route table, 20 well-formed-but-unusual requests: timeout header values, empty/64 KiB route, multi-byte characters straddling bytes 64 / 256, 300 headers, duplicate keys, 1 MiB body) x ending {finish, reset, stop, abandon, connection close} x optional mid-frame split x placement {before, during, after} an honest peer's in-flight RPC; stream-level attacks (hold limit+3 streams, uni streams finished / reset / 150 at once / held open after 0, 1, 1024, 20000 bytes, datagrams 0/1/1200 B, abrupt closes, endpoint drop, the same while three of its well-formed requests are being served, stop+reset storms); each followed by a well-formed RPC on a sibling stream, honest RPCs, a new honest connection; plus the decoders on the same byte strings under an address-space cap; distinct = distinct (attack kind, connection state)".into(),
             assumptions: vec!["one adversary connection at a time; bidi stream limit 6".into()],
             exhaustive: true,
         }
@@ -466,6 +481,13 @@ impl Check for C06 {
         let mut u = vec![json!({"kind":"decoder","on_death":"decoder-aborts-process"})];
         let ps = payloads();
         for (pi, (name, bytes, _)) in ps.iter().enumerate() {
+            if name.starts_with("routed:") {
+                // only against the victim that serves through a route table
+                for timing in ["before", "during", "after"] {
+                    u.push(json!({"kind":"payload","payload":pi,"ending":"finish","timing":timing,"routed":true,"desc":format!("{name} (victim serves through a Router with {ROUTED:?})"),"bound":0}));
+                }
+                continue;
+            }
             for ending in ENDINGS {
                 for timing in ["before", "during", "after"] {
                     let _ = tier;
